@@ -253,6 +253,9 @@ def _compare(  # noqa: C901, PLR0912
         **kwargs,
     ):
         if change.typ == ADD:
+            if change.old is not None:
+                # an entry without meta and hash (e.g. a broken link) is in the way
+                _add_delete(change.old)
             _add_create(change.new)
         elif change.typ == DELETE:
             if not delete:
